@@ -7,6 +7,8 @@ import (
 	"regexp"
 	"strings"
 
+	"cuelang.org/go/cue/ast"
+
 	"cuelang.org/go/internal/verifharness/common"
 )
 
@@ -23,8 +25,19 @@ type Label struct {
 	ID   int
 }
 
-var regNames = []string{"a", "b", "ab", "c", "zq"} // zq is the fresh label: never generated in programs
+// The label universe of harness/core with two names that exercise the label-quoting decision of the
+// exporter (export/label.go stringLabel -> ast.NewStringLabel -> ast.StringLabelNeedsQuoting):
+// "a-b" is not an identifier, "_c" would be a hidden field if written unquoted. They match the
+// patterns exactly like "ab" and "c" do in harness/core.
+var regNames = []string{"a", "b", "a-b", "_c", "zq"} // zq is the fresh label: never generated in programs
 const freshID = 4
+
+func quoteLabel(n string) string {
+	if ast.StringLabelNeedsQuoting(n) {
+		return fmt.Sprintf("%q", n)
+	}
+	return n
+}
 
 func (l Label) CUE() string {
 	switch l.Kind {
@@ -33,7 +46,7 @@ func (l Label) CUE() string {
 	case LDef:
 		return fmt.Sprintf("#F%d", l.ID)
 	}
-	return regNames[l.ID]
+	return quoteLabel(regNames[l.ID])
 }
 func (l Label) Sexp() string { return fmt.Sprintf("%c%d", "rhd"[l.Kind], l.ID) }
 
@@ -70,7 +83,7 @@ func (a Atom) Sexp() string {
 	return "n"
 }
 
-var probeAtoms = []Atom{{'i', -1}, {'i', 0}, {'i', 1}, {'i', 5}, {'i', 10}, {'i', 11}, {'s', 0}, {'s', 1}, {'b', 0}, {'b', 1}, {'n', 0}}
+var probeAtoms = []Atom{{'i', -9}, {'i', -5}, {'i', -3}, {'i', -1}, {'i', 0}, {'i', 1}, {'i', 5}, {'i', 10}, {'i', 11}, {'s', 0}, {'s', 1}, {'b', 0}, {'b', 1}, {'n', 0}}
 
 type Expr interface {
 	CUE() string
@@ -111,7 +124,12 @@ func (s ScalKind) Sexp() string { return "(k " + s.K + ")" }
 
 var opCUE = map[string]string{"gt": ">", "ge": ">=", "lt": "<", "le": "<=", "ne": "!="}
 
-func (s ScalBound) CUE() string  { return opCUE[s.Op] + fmt.Sprint(s.Z) }
+func (s ScalBound) CUE() string {
+	if s.Z < 0 {
+		return opCUE[s.Op] + " " + fmt.Sprint(s.Z) // `<-1` would lex as the arrow token
+	}
+	return opCUE[s.Op] + fmt.Sprint(s.Z)
+}
 func (s ScalBound) Sexp() string { return fmt.Sprintf("(%s %d)", s.Op, s.Z) }
 func (a And) CUE() string        { return "(" + a.A.CUE() + " & " + a.B.CUE() + ")" }
 func (a And) Sexp() string       { return "(& " + a.A.Sexp() + " " + a.B.Sexp() + ")" }
@@ -130,7 +148,7 @@ var patterns = []Pattern{
 	{CUE: "string"},
 	{CUE: `=~"^a"`, re: regexp.MustCompile("^a")},
 	{CUE: `=~"b$"`, re: regexp.MustCompile("b$")},
-	{CUE: `!="c"`, neq: "c"},
+	{CUE: `!="_c"`, neq: "_c"},
 }
 
 func (p Pattern) ids() []int {
@@ -284,9 +302,18 @@ type GenCfg struct {
 	MaxDepth   int
 	Closedness bool // definitions, close, embeddings of closed things
 	Bounds     bool
+	NegBounds  bool // families with negative operands
 }
 
-var boundFamily = []ScalBound{{"gt", 0}, {"ge", 0}, {"lt", 10}, {"le", 10}, {"ne", 5}}
+// bound families: the members of one family are satisfiable together (cue's emptiness detection
+// for bounds is C03's subject); one family per program.  Families 1 and 2 have negative operands
+// (`< -1` is printed as `<-1` by cue/format: known finding F3).
+var boundFamilies = [][]ScalBound{
+	{{"gt", 0}, {"ge", 0}, {"lt", 10}, {"le", 10}, {"ne", 5}},
+	{{"gt", -9}, {"ge", -9}, {"lt", -1}, {"le", -1}, {"ne", -5}},
+	{{"gt", -5}, {"ge", -5}, {"lt", 10}, {"le", 10}, {"ne", 5}, {"ge", 0}},
+}
+var boundFamily = boundFamilies[0]
 
 func (g *Gen) atom() Atom { return common.Pick(g.r, probeAtoms) }
 
@@ -538,6 +565,10 @@ func (g *Gen) rootConj(depth int) Expr {
 func NewGen(r *common.Rng, cfg GenCfg) *Gen { return &Gen{r: r, cfg: cfg} }
 
 func (g *Gen) Program() *Program {
+	boundFamily = boundFamilies[0]
+	if g.cfg.NegBounds && g.r.Chance(1, 2) {
+		boundFamily = boundFamilies[1+g.r.Intn(2)]
+	}
 	g.defs = nil
 	g.ndefs = 0
 	g.pref = map[string]Atom{}
